@@ -1,0 +1,252 @@
+//! Verification facade, only compiled with the cargo feature `verif`.
+//!
+//! Everything in here is add-only: thin public wrappers around crate-private entry points, a
+//! plain-data view of messages, and a scripted replacement for the equal-staleness shuffle so
+//! that an external model checker owns the only hidden source of randomness on the protocol
+//! path. With the feature off none of this exists.
+
+use std::cell::RefCell;
+use std::collections::HashSet;
+
+use crate::delta::Delta;
+use crate::digest::Digest;
+use crate::serialize::Serializable;
+use crate::{Chitchat, ChitchatId, ChitchatMessage};
+
+/// One scripted choice point: how many alternatives there were, and which one was taken.
+#[derive(Clone, Copy, Debug, Eq, PartialEq)]
+pub struct ChoicePoint {
+    pub arity: usize,
+    pub chosen: usize,
+}
+
+#[derive(Default)]
+struct ChoiceScript {
+    script: Vec<usize>,
+    position: usize,
+    log: Vec<ChoicePoint>,
+}
+
+thread_local! {
+    static CHOICES: RefCell<Option<ChoiceScript>> = const { RefCell::new(None) };
+}
+
+/// Arms the choice script of the current thread. Choice points beyond the end of the script take
+/// alternative 0. Every choice point met is logged (see [`disarm_choices`]).
+pub fn arm_choices(script: Vec<usize>) {
+    CHOICES.with(|choices| {
+        *choices.borrow_mut() = Some(ChoiceScript {
+            script,
+            position: 0,
+            log: Vec::new(),
+        });
+    });
+}
+
+/// Disarms the choice script and returns the log of the choice points met since it was armed.
+pub fn disarm_choices() -> Vec<ChoicePoint> {
+    CHOICES.with(|choices| {
+        choices
+            .borrow_mut()
+            .take()
+            .map(|script| script.log)
+            .unwrap_or_default()
+    })
+}
+
+fn next_choice(arity: usize) -> Option<usize> {
+    CHOICES.with(|choices| {
+        let mut guard = choices.borrow_mut();
+        let script = guard.as_mut()?;
+        let chosen = script.script.get(script.position).copied().unwrap_or(0);
+        assert!(
+            chosen < arity,
+            "verif: scripted choice {chosen} out of range (arity {arity})"
+        );
+        script.position += 1;
+        script.log.push(ChoicePoint { arity, chosen });
+        Some(chosen)
+    })
+}
+
+fn factorial(n: usize) -> usize {
+    (1..=n).product()
+}
+
+/// Called right after the equal-staleness shuffle. When the script is not armed this is a no-op
+/// and the random shuffle stands. When armed, the group is put in `ChitchatId` order and then
+/// permuted by the next scripted choice (groups of up to 5: one of the n! permutations, in
+/// Lehmer-code order; larger groups: one of the n rotations).
+pub(crate) fn reorder_equal_staleness<T>(
+    group: &mut Vec<T>,
+    id_of: impl Fn(&T) -> &ChitchatId,
+) {
+    let armed = CHOICES.with(|choices| choices.borrow().is_some());
+    if !armed {
+        return;
+    }
+    group.sort_by(|left, right| id_of(left).cmp(id_of(right)));
+    let len = group.len();
+    if len < 2 {
+        return;
+    }
+    if len > 5 {
+        let rotation = next_choice(len).unwrap_or(0);
+        group.rotate_left(rotation);
+        return;
+    }
+    let mut code = next_choice(factorial(len)).unwrap_or(0);
+    let mut remaining: Vec<T> = std::mem::take(group);
+    for position in 0..len {
+        let radix = factorial(len - 1 - position);
+        let index = code / radix;
+        code %= radix;
+        group.push(remaining.remove(index));
+    }
+}
+
+#[derive(Clone, Debug, Eq, PartialEq)]
+pub struct DigestEntryView {
+    pub chitchat_id: ChitchatId,
+    pub heartbeat: u64,
+    pub last_gc_version: u64,
+    pub max_version: u64,
+}
+
+#[derive(Clone, Debug, Eq, PartialEq)]
+pub struct KeyValueView {
+    pub key: String,
+    pub value: String,
+    pub version: u64,
+    /// 0 = set, 1 = deleted, 2 = delete after ttl (the wire code).
+    pub status: u8,
+}
+
+#[derive(Clone, Debug, Eq, PartialEq)]
+pub struct NodeDeltaView {
+    pub chitchat_id: ChitchatId,
+    pub from_version_excluded: u64,
+    pub last_gc_version: u64,
+    pub max_version: u64,
+    pub key_values: Vec<KeyValueView>,
+}
+
+#[derive(Clone, Debug, Eq, PartialEq)]
+pub struct DeltaView {
+    pub serialized_len: usize,
+    pub node_deltas: Vec<NodeDeltaView>,
+}
+
+#[derive(Clone, Debug, Eq, PartialEq)]
+pub enum MessageView {
+    Syn {
+        cluster_id: String,
+        digest: Vec<DigestEntryView>,
+    },
+    SynAck {
+        digest: Vec<DigestEntryView>,
+        delta: DeltaView,
+    },
+    Ack {
+        delta: DeltaView,
+    },
+    BadCluster,
+}
+
+fn digest_view(digest: &Digest) -> Vec<DigestEntryView> {
+    digest
+        .node_digests
+        .iter()
+        .map(|(chitchat_id, node_digest)| DigestEntryView {
+            chitchat_id: chitchat_id.clone(),
+            heartbeat: node_digest.heartbeat.0,
+            last_gc_version: node_digest.last_gc_version,
+            max_version: node_digest.max_version,
+        })
+        .collect()
+}
+
+fn delta_view(delta: &Delta) -> DeltaView {
+    DeltaView {
+        serialized_len: delta.serialized_len(),
+        node_deltas: delta
+            .node_deltas
+            .iter()
+            .map(|node_delta| NodeDeltaView {
+                chitchat_id: node_delta.chitchat_id.clone(),
+                from_version_excluded: node_delta.from_version_excluded,
+                last_gc_version: node_delta.last_gc_version,
+                max_version: node_delta.max_version,
+                key_values: node_delta
+                    .key_values
+                    .iter()
+                    .map(|key_value| KeyValueView {
+                        key: key_value.key.clone(),
+                        value: key_value.value.clone(),
+                        version: key_value.version,
+                        status: key_value.status.into(),
+                    })
+                    .collect(),
+            })
+            .collect(),
+    }
+}
+
+/// Field-by-field copy of the in-memory meaning of a message.
+pub fn message_view(message: &ChitchatMessage) -> MessageView {
+    match message {
+        ChitchatMessage::Syn { cluster_id, digest } => MessageView::Syn {
+            cluster_id: cluster_id.clone(),
+            digest: digest_view(digest),
+        },
+        ChitchatMessage::SynAck { digest, delta } => MessageView::SynAck {
+            digest: digest_view(digest),
+            delta: delta_view(delta),
+        },
+        ChitchatMessage::Ack { delta } => MessageView::Ack {
+            delta: delta_view(delta),
+        },
+        ChitchatMessage::BadCluster => MessageView::BadCluster,
+        #[cfg(test)]
+        ChitchatMessage::PanicForTest => MessageView::BadCluster,
+    }
+}
+
+/// Public wrappers around the crate-private protocol steps. They contain no logic.
+impl Chitchat {
+    pub fn verif_create_syn_message(&self) -> ChitchatMessage {
+        self.create_syn_message()
+    }
+
+    pub fn verif_process_message(&mut self, message: ChitchatMessage) -> Option<ChitchatMessage> {
+        self.process_message(message)
+    }
+
+    pub fn verif_update_nodes_liveness(&mut self) {
+        self.update_nodes_liveness()
+    }
+
+    pub fn verif_gc_keys_marked_for_deletion(&mut self) {
+        self.gc_keys_marked_for_deletion()
+    }
+
+    pub fn verif_update_self_heartbeat(&mut self) {
+        self.update_self_heartbeat()
+    }
+
+    /// Computes the delta this node would send in answer to the digest carried by `syn`, under
+    /// the given size budget, and returns it wrapped in an ACK. Returns `None` if `syn` is not a
+    /// SYN message.
+    pub fn verif_compute_delta(&self, syn: &ChitchatMessage, mtu: usize) -> Option<ChitchatMessage> {
+        let ChitchatMessage::Syn { digest, .. } = syn else {
+            return None;
+        };
+        let scheduled_for_deletion: HashSet<_> = self.scheduled_for_deletion_nodes().collect();
+        let delta = self.cluster_state.compute_partial_delta_respecting_mtu(
+            digest,
+            mtu,
+            &scheduled_for_deletion,
+        );
+        Some(ChitchatMessage::Ack { delta })
+    }
+}
